@@ -107,8 +107,57 @@ def escaped_violation(hist, prop_default=None):
 
 
 # ---------------------------------------------------------------------------
+def nothing_can_fail(world):
+    """True when the world holds no source of failure at all (independent of the acceptor, which
+    stops at its first divergence): every step has a definition, no callback is scripted to raise,
+    interrupt or time out, no converter faults, no failing cleanup/fixture, no auto-retry; a
+    not-implemented step is allowed only inside a scenario whose effective tags include @wip."""
+    cfg = world["cfg"]
+    if cfg.get("dry_run") or cfg.get("wip") or world.get("autoretry") or cfg.get("listfile"):
+        return False
+    rx = [(d, W.def_regex(d)) for d in world["steplib"]["defs"]]
+    wip_scen = {}
+    for feat, rule, ol, sc in W.walk_scenarios(world):
+        wip_scen[sc["id"]] = "wip" in W.effective_tags(feat, rule, ol, sc)
+        for _sid, st in W.all_steps_of(feat, rule, sc):
+            if "BAD" in st["text"]:
+                return False
+            ok = False
+            for d, r in rx:
+                if d["type"] in (st["type"], "step") and r.match(st["text"]):
+                    ok = True
+                    break
+            if not ok:
+                return False
+    for d in world["steplib"]["defs"]:
+        if d.get("async"):
+            return False
+    for key, ent in world["script"].items():
+        k = ent["out"]["kind"]
+        if k in ("assert", "exc", "kbi"):
+            return False
+        if k == "notimpl":
+            parts = key.split("|")
+            if parts[0] != "step" or not wip_scen.get(parts[1]):
+                return False
+        if ent.get("async"):
+            return False
+        for a in ent["acts"]:
+            if a["a"] == "cleanup" and (a.get("raises") or a.get("setup_raises")):
+                return False
+            if a["a"] == "execute_steps":
+                return False
+            if a["a"] in ("examples_table", "step_table", "skip_element"):
+                return False
+    return True
+
+
 def check_C01(world, hist, pred):
     out = trace_violations(pred, "C01", hist)
+    if not hist.get("config_error") and not hist.get("escaped") and hist.get("rc") not in (0, None) \
+            and nothing_can_fail(world):
+        out.append(V("C01", "false-red", "nothing-could-fail", rc=hist.get("rc"), runner_state=hist.get("runner_state")))
+        return out
     if pred.notes.get("hook_interrupt") and not hist.get("escaped") and hist.get("rc") == 0:
         out.append(V("C01", "false-green", "interrupted-in-hook", rc=0, hook=pred.notes["hook_interrupt"]))
     if hist.get("config_error") or hist.get("escaped") or pred.dead or pred.verdict is None:
@@ -622,6 +671,25 @@ def check_C06(world, hist, pred):
     if hist.get("escaped") or hist.get("config_error"):
         return out
     idx = census_index(hist)
+    # the expansion is rebuilt when (and only when) an examples table was changed: the row scenarios
+    # that were executed are the ones the outline still holds afterwards
+    if not world["cfg"].get("dry_run"):
+        ran = {}
+        changed = set()         # outlines whose tables a hook changed (rows added there have no line
+        for e in hist["events"]:        # of their own, so census ids alias: left to the rebuild checks below)
+            if e["kind"] == "step" and e["depth"] == 0 and e.get("scen") and not e.get("raised"):
+                ran.setdefault(e["scen"], e)
+            for d in e["did"]:
+                if d[0] in ("table_add_row", "table_add_column"):
+                    changed.add(d[1])
+        for sid, e in sorted(ran.items()):
+            node = idx.get(sid)
+            if node is None or ".E" not in sid or not node["steps"] or sid.rsplit(".E", 1)[0] in changed:
+                continue
+            if node["status"] == "untested" and all(s["status"] == "untested" for s in node["steps"]):
+                out.append(V("C06", "not-rebuilt-after-table-change", "rows-rebuilt-without-change",
+                             row=sid, executed_step=e.get("idx")))
+                break
     schema = world["cfg"].get("outline_schema") or u"{name} -- @{row.id} {examples.name}"
     # table-API mutations performed by hooks (the expansion must be rebuilt accordingly)
     muts = {}
